@@ -27,6 +27,7 @@ UNIVERSE = ["q", "i1", "i2"]  # names whose relative order is permuted; other na
 
 
 class _Sched:
+    universe = None
     ctx = None
     n = 0
     order = None
@@ -51,7 +52,7 @@ class PSet(list):
         if len(seen) > 1 and all(isinstance(v, str) for v in seen):
             # one solver-chosen global order of the feature names per path (a hash seed), applied to every set
             if _Sched.order is None:
-                perms = list(itertools.permutations(UNIVERSE))
+                perms = list(itertools.permutations(_Sched.universe or UNIVERSE))
                 _Sched.order = list(perms[_Sched.pick(len(perms), "hash")])
             rank = {v: i for i, v in enumerate(_Sched.order)}
             seen.sort(key=lambda v: rank.get(v, len(rank)))
@@ -191,13 +192,13 @@ def h_indep(ctx, cls, n, n_nan, ypat, params, mode):
         elif mode == "hash":
             # every relative iteration order of three of the names in list(set(features)) (= hash seeds)
             extra = [(m, "set", PSet) for m in MODS_SET]
-            with rebound(ctx, [], extra=extra):
+            with rebound(ctx, [], extra=extra, always=True):
                 o = make(cls, ["f"], ["q", "i1", "i2"], params)
                 st = fit(o, X)
             compare(o, st, X, "solver-chosen iteration order of set(features)", ["f", "q", "i1", "i2"])
         elif mode == "pool":
             extra = [(m, "Pool", FakePool) for m in MODS_POOL]
-            with rebound(ctx, [], extra=extra):
+            with rebound(ctx, [], extra=extra, always=True):
                 nj = 2 + ctx.choose("n_jobs", 2)
                 o = make(cls, list(QUANTI), ["q", "n", "m"], params, n_jobs=nj)
                 st = fit(o, X)
@@ -212,6 +213,51 @@ def h_indep(ctx, cls, n, n_nan, ypat, params, mode):
                         ctx.require(col_equal(list(outp[c]), list(outs[c])), "C10.parallel-differs", f"n_jobs={nj}: transform column {c} differs from n_jobs=1")
                 compare(o, st, X, f"n_jobs>1 with a solver-chosen completion order", QUANTI + ["q", "n", "m"])
     return dict(counters={"ok": 1, "kept": int(kept_ref)}, sample=dict(cls=cls, mode=mode, ypat=ypat, kept={k_: v["kept"] for k_, v in ref.items()}), result=dict(kept={k_: v["kept"] for k_, v in ref.items()}))
+
+
+def h_multi_names(ctx, params):
+    """O10.2: MulticlassCarver on two quantitative features, one of which is named like the other plus '_<class>': the columns
+    carved from the longer-named feature do not depend on the other feature being fitted alongside, for every iteration order of
+    set(features).  (That the raw column of that name is overwritten in the output is the open finding KF-C12-2; it is not
+    asserted here.)"""
+    import numpy as np
+
+    from AutoCarver import BinaryCarver, MulticlassCarver
+
+    n = 18
+    X = pd.DataFrame({"a": [float((i * 7) % 9) for i in range(n)], "a_2": [float((i * 5) % 6) + 0.5 for i in range(n)]})
+    y = pd.Series([0, 1, 2, 0, 1, 2, 2, 1, 0, 0, 2, 1, 1, 0, 2, 2, 0, 1])
+    classes = sorted(set(str(v) for v in y))
+    expected = {}
+    for ci in classes[1:]:
+        bc = BinaryCarver(quantitative_features=["a_2"], copy=True, **params)
+        bc.fit(X, (y.astype(str) == ci).astype(int))
+        expected[ci] = list(bc.transform(X)["a_2"]) if "a_2" in bc.features else None
+    _Sched.ctx, _Sched.n, _Sched.order, _Sched.universe = ctx, 0, None, ["a", "a_2"]
+    try:
+        extra = [(m, "set", PSet) for m in MODS_SET + ["AutoCarver.carvers.multiclass_carver"]]
+        with rebound(ctx, [], extra=extra, always=True):
+            mc = MulticlassCarver(quantitative_features=["a", "a_2"], copy=True, **params)
+            try:
+                mc.fit(X, y)
+                out = mc.transform(X)
+            except Violation:
+                raise
+            except AssertionError as e:
+                from symx import Infeasible
+                raise Infeasible()  # (vacuity guard: the obligation must reach its final assertion on some path)
+            except Exception as e:
+                ctx.require(False, "C08.internal-error", f"MulticlassCarver on features ['a', 'a_2'] raised {type(e).__name__}: {str(e)[:140]}")
+    finally:
+        _Sched.universe = None
+    for ci in classes[1:]:
+        col = f"a_2_{ci}"
+        kept = col in mc.features
+        ctx.require(kept == (expected[ci] is not None), "C10.depends-on-other-features", f"{col} kept={kept} next to feature 'a', kept={expected[ci] is not None} when 'a_2' is carved alone (set order {_Sched.order})")
+        if kept:
+            ctx.require(col_equal(list(out[col]), expected[ci]), "C10.depends-on-other-features",
+                        f"{col} = {list(out[col])[:8]}... next to feature 'a' but {expected[ci][:8]}... when 'a_2' is carved alone (iteration order of set(features): {_Sched.order})")
+    return dict(counters={"ok": 1}, sample=dict(order=_Sched.order, cols=sorted(mc.features)))
 
 
 def obligations(tier):
@@ -230,6 +276,12 @@ def obligations(tier):
                     for ypat in pats:
                         jobs.append(dict(cls=cls, n=n, n_nan=n_nan, ypat=ypat, params=params, mode=mode))
     return [
+        Obligation(
+            name="O10.2 MulticlassCarver: columns carved from a feature whose name is another feature's name plus '_<class>' do not depend on that other feature, for every iteration order of set(features)",
+            harness=h_multi_names, jobs=[dict(params=dict(min_freq=0.2, sort_by="cramerv", max_n_mod=3, output_dtype=od, dropna=True)) for od in ("float", "str")],
+            encodes=["MulticlassCarver.fit/transform", "BaseDiscretizer._cast_features", "multiclass_carver.append_class"], rebindings=["R8 set -> solver-chosen iteration order"],
+            bounds="concrete 18-row sample, features 'a' and 'a_2', classes 0/1/2; iteration order solver-chosen", twin=False, budget_s=6.0,
+        ),
         Obligation(
             name="O10 a feature's fitted grouping and transform do not depend on companion features, on list/column order, on the iteration order of set(features), nor on n_jobs / worker completion order",
             harness=h_indep, jobs=jobs, encodes=k_api.ENC_COMMON + k_api.ENC_CARVER + ["StringDiscretizer.fit", "type_discretizers.fit_feature", "CategoricalDiscretizer.fit", "QualitativeDiscretizer.fit"],
